@@ -29,7 +29,13 @@ def scenarios(tier):
     out.append(('mux split replies',
                 {'stack': 'mux', 'endpoints': 1, 'ops': [('call', 't0', 0.1025), ('call', 't1'), ('call', 't2')],
                  'faults': FAULTS + ['split'], 'timeout': 0.5025}))
-  return out
+  pre = []
+  for name, params in out[:3]:
+    q = dict(params)
+    q['max_preempt'] = 1
+    q['_bound'] = 2 if tier == 'quick' else 3
+    pre.append((name + ' [+1 preemption]', q))
+  return out + pre
 
 
 def main(tier, seed):
